@@ -601,6 +601,45 @@ func c09(c *Ctx) {
 		}
 	}
 
+	// the random source is seeded from crypto/rand (a clock seed gives providers created in the same instant identical id sequences)
+	if fn := c.Fn(ix, "R5", "defaultIDGenerator"); fn != nil {
+		var seedVar types.Object
+		inspectNoLit(fn.Body(), func(n ast.Node) bool {
+			if call, ok := n.(*ast.CallExpr); ok && isCallTo(info, call, "math/rand.NewSource") && len(call.Args) == 1 {
+				seedVar = objOf(info, call.Args[0])
+			}
+			return true
+		})
+		fromCrypto, otherWrites := false, 0
+		if seedVar != nil {
+			inspectNoLit(fn.Body(), func(n ast.Node) bool {
+				switch x := n.(type) {
+				case *ast.CallExpr:
+					if isCallTo(info, x, "encoding/binary.Read") && len(x.Args) == 3 {
+						var rv *types.Var
+						if sel, ok := unparen(x.Args[0]).(*ast.SelectorExpr); ok {
+							rv, _ = info.Uses[sel.Sel].(*types.Var)
+						}
+						if v := rv; v != nil && v.Pkg() != nil && v.Pkg().Path() == "crypto/rand" && v.Name() == "Reader" {
+							if u, ok := unparen(x.Args[2]).(*ast.UnaryExpr); ok && u.Op == token.AND && sameVar(info, u.X, seedVar) {
+								fromCrypto = true
+							}
+						}
+					}
+				case *ast.AssignStmt:
+					for _, l := range x.Lhs {
+						if sameVar(info, l, seedVar) {
+							otherWrites++
+						}
+					}
+				}
+				return true
+			})
+		}
+		c.Check(seedVar != nil && fromCrypto && otherWrites == 0, "R5", "sdk/trace|defaultIDGenerator|random source seeded from crypto/rand only", at(ix.M, fn.Pos()), "seed ← binary.Read(crypto/rand.Reader)",
+			"the id generator's seed does not come (only) from crypto/rand: generators created close together produce identical trace and span id sequences")
+	}
+
 	// R6 processors forward only sampled spans
 	c.Rule("R6", "E3 dominance", "the simple processor exports only sampled spans (the batch processor's gate is C01.R5, re-checked here)", 3)
 	fSspExp := lookupField(ix.Pkg, "simpleSpanProcessor", "exporter")
